@@ -229,6 +229,23 @@ func wireScenarios(rng *rand.Rand, nrand int) []wireScn {
 		}
 		return b
 	}
+	// announced lengths that are negative as a 64-bit integer or beyond every limit, with and without a receive
+	// limit configured, on both stream flavours, after a good message and followed by more bytes
+	for _, ipc := range []bool{false, true} {
+		for _, maxrx := range []int{0, 8} {
+			for _, lenb := range [][]byte{{0xff, 0xff, 0xff, 0xff, 0xff, 0xff, 0xff, 0xf0}, {0x80, 0, 0, 0, 0, 0, 0, 1}, {0x80, 0, 0, 0, 0, 0, 0, 0}} {
+				w := wireScn{Kind: "recv", IPC: ipc, Self: 0x30, Hdr: goodHdr(peerOf(0x30)), Chunks: chunkings[rng.Intn(len(chunkings))], Close: true, MaxRx: maxrx}
+				w.Stream = append(w.Stream, frame(ipc, msg(5))...)
+				if ipc {
+					w.Stream = append(w.Stream, 1)
+				}
+				w.Stream = append(w.Stream, lenb...)
+				w.Stream = append(w.Stream, 9, 9, 9, 9)
+				w.Stream = append(w.Stream, frame(ipc, msg(2))...)
+				out = append(out, w)
+			}
+		}
+	}
 	for i := 0; i < nrand; i++ {
 		ipc := rng.Intn(2) == 0
 		self := spProtos[rng.Intn(len(spProtos))]
